@@ -140,8 +140,86 @@ def t_rename_locals(trees):
         ast.fix_missing_locations(t)
     return trees
 
+def t_augassign(trees):
+    """x = x + e  ->  x += e  for plain names (numbers in this code base)"""
+    class T(ast.NodeTransformer):
+        def visit_Assign(self, n):
+            if len(n.targets) == 1 and isinstance(n.targets[0], ast.Name) and isinstance(n.value, ast.BinOp) \
+                    and isinstance(n.value.op, (ast.Add, ast.Sub)) and isinstance(n.value.left, ast.Name) \
+                    and n.value.left.id == n.targets[0].id and n.targets[0].id in ("t", "r", "n", "k"):
+                return ast.copy_location(ast.AugAssign(target=ast.Name(id=n.targets[0].id, ctx=ast.Store()), op=n.value.op, value=n.value.right), n)
+            return n
+    for m, t in trees.items():
+        T().visit(t); ast.fix_missing_locations(t)
+    return trees
+
+def t_order_len(trees):
+    """G.order() -> len(G)"""
+    class T(ast.NodeTransformer):
+        def visit_Call(self, n):
+            self.generic_visit(n)
+            if isinstance(n.func, ast.Attribute) and n.func.attr == "order" and isinstance(n.func.value, ast.Name) and n.func.value.id == "G" and not n.args:
+                return ast.copy_location(ast.Call(func=ast.Name(id="len", ctx=ast.Load()), args=[n.func.value], keywords=[]), n)
+            return n
+    for m, t in trees.items():
+        T().visit(t); ast.fix_missing_locations(t)
+    return trees
+
+def t_inf_spelling(trees):
+    """float('Inf') -> float('inf')"""
+    for m, t in trees.items():
+        for n in ast.walk(t):
+            if isinstance(n, ast.Constant) and n.value == "Inf":
+                n.value = "inf"
+    return trees
+
+def t_annotations(trees):
+    """return annotations and a few parameter annotations are added"""
+    for m, t in trees.items():
+        for n in ast.walk(t):
+            if isinstance(n, ast.FunctionDef):
+                for a in n.args.args:
+                    if a.arg in ("tmin", "tmax", "tau", "gamma"):
+                        a.annotation = ast.Name(id="float", ctx=ast.Load())
+        ast.fix_missing_locations(t)
+    return trees
+
+def t_keys_iter(trees):
+    """for k in d.keys() -> for k in d"""
+    class T(ast.NodeTransformer):
+        def visit_For(self, n):
+            self.generic_visit(n)
+            if isinstance(n.iter, ast.Call) and isinstance(n.iter.func, ast.Attribute) and n.iter.func.attr == "keys" and not n.iter.args:
+                n.iter = n.iter.func.value
+            return n
+    for m, t in trees.items():
+        T().visit(t); ast.fix_missing_locations(t)
+    return trees
+
+def t_positional_to_keyword(trees):
+    """calls between package functions pass every positional argument after the first by keyword"""
+    sigs = {}
+    for m, t in trees.items():
+        for st in t.body:
+            if isinstance(st, ast.FunctionDef):
+                sigs[st.name] = [a.arg for a in st.args.args]
+    class T(ast.NodeTransformer):
+        def visit_Call(self, n):
+            self.generic_visit(n)
+            name = n.func.id if isinstance(n.func, ast.Name) else (n.func.attr if isinstance(n.func, ast.Attribute) and isinstance(n.func.value, ast.Name) and n.func.value.id == "EoN" else None)
+            if name in sigs and not any(isinstance(a, ast.Starred) for a in n.args) and len(n.args) <= len(sigs[name]) and len(n.args) > 1:
+                ps = sigs[name]
+                newkw = [ast.keyword(arg=ps[i], value=a) for i, a in enumerate(n.args) if i >= 1]
+                n.args = n.args[:1]
+                n.keywords = newkw + n.keywords
+            return n
+    for m, t in trees.items():
+        T().visit(t); ast.fix_missing_locations(t)
+    return trees
+
 BATTERY = {"roundtrip": t_roundtrip, "prints": t_prints, "extra_param": t_extra_param, "docstrings": t_docstrings,
-           "helper": t_helper, "compare_mirror": t_compare_mirror, "is_not_none_style": t_is_not_none_style, "rename_locals": t_rename_locals}
+           "helper": t_helper, "compare_mirror": t_compare_mirror, "is_not_none_style": t_is_not_none_style, "rename_locals": t_rename_locals, "augassign": t_augassign, "order_len": t_order_len,
+           "inf_spelling": t_inf_spelling, "annotations": t_annotations, "keys_iter": t_keys_iter, "positional_to_keyword": t_positional_to_keyword}
 
 names = sys.argv[1:] or list(BATTERY)
 for nm in names:
